@@ -5,6 +5,7 @@ import (
 	"encoding/json"
 	"fmt"
 	"time"
+	"unicode/utf8"
 
 	"github.com/pkg/errors"
 
@@ -211,6 +212,14 @@ func (v *version) Validate() error {
 	for _, k := range v.keys {
 		if err := k.Validate(); err != nil {
 			return errors.Wrap(err, "invalid key")
+		}
+	}
+
+	// the JSON encoder replaces the bytes that are not valid UTF-8: what is stored would differ
+	// from what has been accepted
+	for key, val := range v.metadata {
+		if !utf8.ValidString(key) || !utf8.ValidString(val) {
+			return fmt.Errorf("metadata is not valid UTF-8")
 		}
 	}
 
